@@ -208,6 +208,7 @@ func (f *FnEnc) instr(fr *Frame, st *State, R string, in ssa.Instruction) {
 	case *ssa.Range:
 		x := f.val(fr, in.X)
 		fr.vals[in] = Val{T: in.Type(), L: x.L}
+		f.rangeStart(fr, st, R, in)
 	case *ssa.Next:
 		f.next(fr, st, R, in)
 	case *ssa.Select:
